@@ -123,7 +123,7 @@ type c08Point struct {
 
 var c08TokenOps = []string{"u2f-Update", "u2f-Disable", "u2f-Enable", "u2f-Delete", "totp-Update", "totp-Disable", "totp-Enable", "totp-Delete"}
 var c08OtherOps = []string{"u2f-register-request", "u2f-register-response", "webauthn-register-begin", "totp-generate", "profile-view", "users-list", "add-user", "delete-user", "bootstrap-otp", "mint-automation", "mint-nonautomation", "mint-adminname"}
-var c08Targets = []string{"self", "other", "nonexistent", "empty", "case"}
+var c08Targets = []string{"self", "other", "an-admin", "nonexistent", "empty", "case"}
 var c08Indexes = []string{"2", "1", "7", "99", "-1", "9223372036854775808"}
 
 func (p c08Point) targetName() string {
@@ -138,6 +138,12 @@ func (p c08Point) targetName() string {
 			return "alice"
 		}
 		return "bob"
+	case "an-admin":
+		// an administrator as the target of somebody else's operation
+		if p.Actor == "admin" {
+			return "gadmin"
+		}
+		return "admin"
 	case "nonexistent":
 		return "nobody"
 	case "empty":
@@ -515,7 +521,7 @@ func init() {
 	vfRegister(&vfeng.Check{
 		ID:    "C08",
 		Level: "model_checking",
-		Rule:  "(a) exhaustive product web-UI requirement {[password],[U2F],[TOTP,U2F]} x actor (two plain users, admin by name, admin by group, automation admin, automation user, name-prefix of the admin) x credential (cookie at password/+TOTP/+VIP/+U2F/FIDO2-only level, keymaster client certificate, basic-auth) x operation (U2F and TOTP token Update/Disable/Enable/Delete, U2F register request/response with a real soft token, WebAuthn begin, TOTP generate, profile view, users list, add/delete user, bootstrap OTP, mint for automation/non-automation/admin name) x target (self, other, non-existent, empty, case variant) x token index (own, other kind, other user's, missing, negative, overflow) on the real handlers with before/after row digests; (a') with normalisation disabled, the accounts Admin and ADMIN (admin_users lists admin) on 7 administrative operations after a real login; (b) BFS with canonical-state deduplication over {admin request, tick 1/4/5/6 min, demote, promote, directory down/up} for a group-admin on the real IsAdminUser/admincache path",
+		Rule:  "(a) exhaustive product web-UI requirement {[password],[U2F],[TOTP,U2F]} x actor (two plain users, admin by name, admin by group, automation admin, automation user, name-prefix of the admin) x credential (cookie at password/+TOTP/+VIP/+U2F/FIDO2-only level, keymaster client certificate, basic-auth) x operation (U2F and TOTP token Update/Disable/Enable/Delete, U2F register request/response with a real soft token, WebAuthn begin, TOTP generate, profile view, users list, add/delete user, bootstrap OTP, mint for automation/non-automation/admin name) x target (self, other, an administrator, non-existent, empty, case variant) x token index (own, other kind, other user's, missing, negative, overflow) on the real handlers with before/after row digests; (a') with normalisation disabled, the accounts Admin and ADMIN (admin_users lists admin) on 7 administrative operations after a real login; (b) BFS with canonical-state deduplication over {admin request, tick 1/4/5/6 min, demote, promote, directory down/up} for a group-admin on the real IsAdminUser/admincache path",
 		Assumptions: []string{"the reference decision is written from the statement: self-service needs a session at the web-UI level; other users' tokens need admin + U2F bit; user administration needs admin; minting needs (automation) admin and an automation identity", "while the directory does not answer the cache may keep its last value"},
 		Shards: func(tier string) int { return 16 },
 		Run: func(c *vfeng.Ctx) {
